@@ -272,6 +272,13 @@ class Engine:
             return out
         if kind in CONTAINER_KINDS:
             return [(st, SLoc(z, field, kind))]
+        if kind.startswith("opt") and kind[3:] in CONTAINER_KINDS:
+            # Optional[container]: None until it is assigned (flag array <field>$none)
+            isnone = st.heap.get(field + "$none", z)
+            out = []
+            for s2, b in self.branch(st, isnone, f"{field} is None"):
+                out.append((s2, None if b else SLoc(z, field, kind[3:])))
+            return out
         raise Unsupported(f"field kind {kind}")
 
     def ref_field_classes(self, field):
@@ -316,6 +323,14 @@ class Engine:
                 raise Unsupported(f"ref field {field} := {val!r}")
             else:
                 raise Unsupported(f"ref field {field} := {val!r}")
+        elif kind.startswith("opt") and kind[3:] in CONTAINER_KINDS:
+            if val is None:
+                st.heap.put(field + "$none", z, z3.BoolVal(True))
+            elif isinstance(val, SLoc) and val.kind == kind[3:]:
+                st.heap.put(field + "$none", z, z3.BoolVal(False))
+                st.heap.put(field, z, st.heap.get(val.field, val.owner))
+            else:
+                raise Unsupported(f"optional container field {field} := {val!r}")
         elif kind in CONTAINER_KINDS:
             if isinstance(val, SLoc) and val.kind == kind:
                 st.heap.put(field, z, st.heap.get(val.field, val.owner))
